@@ -45,7 +45,7 @@ func (i *ipfsAccessController) CanAppend(entry logac.LogEntry, p identityprovide
 	key := entry.GetIdentity().ID
 	for _, allowedKey := range i.writeAccess {
 		if allowedKey == key || allowedKey == "*" {
-			if err := accesscontroller.VerifyEntryAuthor(entry); err != nil {
+			if err := accesscontroller.VerifyEntryAuthor(entry, p); err != nil {
 				return err
 			}
 
